@@ -56,6 +56,10 @@ pub struct ShortFileName {
 impl ShortFileName {
     const BASE_LEN: usize = 8;
     const TOTAL_LEN: usize = 11;
+    /// First byte of the directory entry of a deleted file
+    const DELETED_MARKER: u8 = 0xE5;
+    /// Stored in place of a first name byte of 0xE5
+    const KANJI_LEAD_BYTE: u8 = 0x05;
 
     /// Get a short file name containing "..", which means "parent directory".
     pub const fn parent_dir() -> Self {
@@ -161,6 +165,12 @@ impl ShortFileName {
         if idx == 0 {
             return Err(FilenameError::FilenameEmpty);
         }
+        if sfn.contents[0] == Self::DELETED_MARKER {
+            // A first byte of 0xE5 marks a directory entry as deleted, so a
+            // name that really starts with that character (U+00E5) is stored
+            // with 0x05 in its place.
+            sfn.contents[0] = Self::KANJI_LEAD_BYTE;
+        }
         Ok(sfn)
     }
 
@@ -196,6 +206,12 @@ impl core::fmt::Display for ShortFileName {
                     write!(f, ".")?;
                     printed += 1;
                 }
+                // a stored 0x05 in the first position stands for 0xE5
+                let c = if i == 0 && c == Self::KANJI_LEAD_BYTE {
+                    Self::DELETED_MARKER
+                } else {
+                    c
+                };
                 // converting a byte to a codepoint means you are assuming
                 // ISO-8859-1 encoding, because that's how Unicode was designed.
                 write!(f, "{}", c as char)?;
